@@ -23,7 +23,11 @@ OpqF(bits) == [k |-> "float", c |-> "opq", neg |-> FALSE, n |-> 0, e |-> 0, bits
 OpqS(bits) == [k |-> "str", v |-> <<>>, of |-> bits]
 IsOpqF(v) == v.k = "float" /\ v.c = "opq"
 IsOpqS(v) == v.k = "str" /\ "of" \in DOMAIN v
-Opq(v) == IsOpqF(v) \/ IsOpqS(v)
+\* A symbolic float (trace mode of CalcSem only): the result of an arithmetic operation this model cannot compute, identified by the
+\* operation and its operands (`term`).  Like an opaque float it cannot be computed with; unlike it, its float64 is not known
+\* until an observation shows it.
+IsSymF(v) == v.k = "float" /\ v.c = "sym"
+Opq(v) == IsOpqF(v) \/ IsOpqS(v) \/ IsSymF(v)
 NaN == Fl("nan", FALSE, 0, 0)
 Inf(neg) == Fl("inf", neg, 0, 0)
 
@@ -132,7 +136,8 @@ Rel(op, a, b) ==
 RECURSIVE WeakEq(_, _)
 WeakEq(a, b) ==      \* [val |-> BOOLEAN] or error; mirrors the documented ==
   IF Opq(a) \/ Opq(b) THEN
-       (IF IsOpqF(a) /\ IsOpqF(b) THEN Ok(a.bits = b.bits)      \* finite floats are equal iff they are the same float64 (zeros are not opaque)
+       (IF IsSymF(a) \/ IsSymF(b) THEN Unspec
+        ELSE IF IsOpqF(a) /\ IsOpqF(b) THEN Ok(a.bits = b.bits)      \* finite floats are equal iff they are the same float64 (zeros are not opaque)
         ELSE IF (IsOpqF(a) /\ b.k \in {"int", "float"}) \/ (IsOpqF(b) /\ a.k \in {"int", "float"}) THEN Ok(FALSE)   \* an opaque float is no exact one
         ELSE Unspec)
   ELSE IF a.k = "bigint" \/ b.k = "bigint" THEN      \* integers beyond the arithmetic range: canonical decimal texts, disjoint from the small ones
@@ -257,7 +262,7 @@ RECURSIVE StripZeros(_)
 StripZeros(s) == IF Len(s) > 0 /\ s[Len(s)] = "0" THEN StripZeros(SubSeq(s, 1, Len(s) - 1)) ELSE s
 \* finite float n/2^e, 1e-4 <= |x| < 1e6 or zero: plain decimal, exact expansion
 FloatStr(f) ==
-  IF f.c = "opq" THEN Unspec ELSE
+  IF f.c \in {"opq", "sym"} THEN Unspec ELSE
   IF f.c = "nan" THEN Ok(<<"N", "a", "N">>)
   ELSE IF f.c = "inf" THEN Ok(IF f.neg THEN <<"-", "I", "n", "f">> ELSE <<"+", "I", "n", "f">>)
   ELSE IF f.n = 0 THEN Ok(IF f.neg THEN <<"-", "0">> ELSE <<"0">>)
